@@ -290,6 +290,9 @@ class Ctx:
             if k.get("status") == "known" and re.search(k["signature"], signature):
                 if k["id"] not in [h[0] for h in self.known_hits]:
                     self.known_hits.append((k["id"], k["what"]))
+                    # keep the first occurrence of every known finding of this run for inspection
+                    self.save_replay(dict(replay_obj, signature=signature, what=what, property=self.pid, seed=self.seed,
+                                          tier=self.tier, known_finding=k["id"]), name="known-%s.json" % k["id"])
                 return "known"
         # one report per structural signature; at most 8 per run
         if signature in [v[0] for v in self.violations] or len(self.violations) >= 8:
